@@ -69,6 +69,8 @@ pub enum BOp {
     Drain(usize),
     Extend(usize),
     Observe,
+    /// drain().nth(k): pops k+1 elements (or all of them) and yields the last one popped
+    DrainNth(usize),
 }
 
 #[derive(Clone, Debug, Serialize, Deserialize)]
@@ -215,6 +217,19 @@ where
             let it: Vec<u32> = rb.iter().map(|e| e.id()).collect();
             let want: Vec<u32> = m.q.iter().copied().collect();
             ensure!(it == want, "iter() yields {:?}, queue is {:?}", it, want);
+            vp_core::iterlaws::iter_laws("Bounded::iter()", || rb.iter().map(|e| e.id()), &want, true)?;
+        }
+        BOp::DrainNth(k) => {
+            let got = rb.drain().nth(*k).map(|e| e.id());
+            let mut exp = None;
+            for _ in 0..=*k {
+                exp = m.pop();
+                if exp.is_none() {
+                    break;
+                }
+            }
+            st.class_if(*k > 0 && *k < len, "drain partially");
+            ensure!(got == exp, "drain().nth({}) = {:?}, model {:?}", k, got, exp);
         }
         BOp::IterMutSet => {
             let mut seen = Vec::new();
@@ -559,6 +574,9 @@ where
             let it: Vec<u32> = rb.iter().map(|e| e.id()).collect();
             let want: Vec<u32> = m.q.iter().copied().collect();
             ensure!(it == want, "iter() yields {:?}, model {:?}", it, want);
+            vp_core::iterlaws::iter_laws("Fixed::iter()", || rb.iter().map(|e| e.id()), &want, true)?;
+            let looped: Vec<u32> = (0..3 * n).map(|i| want[i % n]).collect();
+            vp_core::iterlaws::iter_laws("Fixed::iter_loop()", || rb.iter_loop().map(|e| e.id()), &looped, false)?;
         }
         FOp::IterLoop(k) => {
             let lp: Vec<u32> = rb.iter_loop().take(*k).map(|e| e.id()).collect();
